@@ -536,7 +536,7 @@ def run_cases(ctx, cases, real_dot=2, model=True):
 
         def fails(d2, kind=kind, fields=fields):
             o2 = ctx.harness('drive_dag.py', {'cases': [d2]})['cases'][0]
-            return o2.get('exc') is None and not o2['selfcheck'] and any(
+            return o2.get('exc') is None and any(
                 k == kind and f == fields for k, f, _ in oracle(d2, o2))
         small = shrink(desc, fails, budget=20)
         o2 = ctx.harness('drive_dag.py', {'cases': [small]})['cases'][0]
